@@ -121,6 +121,13 @@ async fn script(users: Vec<Handle>, ops: Vec<J>, log: Rc<RefCell<Vec<J>>>) {
                 }
                 None => res = "noReceiver".into(),
             },
+            "probe" => match sender.as_mut() {
+                Some(s) => match poll_once(s.receiver_closed()).await {
+                    Some(()) => res = "closed".into(),
+                    None => res = "pending".into(),
+                },
+                None => res = "noSender".into(),
+            },
             other => panic!("chan-replay: operation {other} is not mapped"),
         }
         sync_all(&users).await;
